@@ -121,6 +121,7 @@ impl V {
             V::Obj(p) => {
                 let items: Vec<Value> = p
                     .iter()
+                    .take(40)
                     .map(|(k, v)| {
                         let k = if k.len() > 40 {
                             format!("<name of {} bytes>", k.len())
@@ -130,7 +131,11 @@ impl V {
                         json!([k, v.to_json_depth(d + 1)])
                     })
                     .collect();
-                json!({ "obj": items })
+                if p.len() > 40 {
+                    json!({ "obj_props": p.len(), "first_40": items })
+                } else {
+                    json!({ "obj": items })
+                }
             }
             V::Arr(a) => {
                 if a.len() > 12 {
@@ -158,6 +163,9 @@ pub fn seq_canon(vs: &[V]) -> Vec<V> {
 }
 
 pub fn seq_json(vs: &[V]) -> Value {
+    if vs.len() > 40 {
+        return json!({"values": vs.len(), "first_40": vs.iter().take(40).map(|v| v.to_json()).collect::<Vec<_>>(), "last": vs.last().map(|v| v.to_json())});
+    }
     Value::Array(vs.iter().map(|v| v.to_json()).collect())
 }
 
@@ -578,9 +586,27 @@ pub fn gen_value(rng: &mut Rng, cfg: &GenCfg, depth: usize) -> V {
                 let n = *rng.pick(&[255usize, 256, 257, 1024, 1025, 5000]);
                 return V::Obj((0..n).map(|i| (format!("p{}", i), if i % 3 == 0 { V::Null } else { V::Num(i as u64) })).collect());
             }
+            if rng.chance(1, 25) {
+                // the shape Flash gives associative arrays: keys "0".."n-1" plus "length": n
+                // (sometimes off by one), or "length" alone
+                let n = rng.usize(0, cfg.max_children.max(1));
+                let mut props: Vec<(String, V)> = (0..n).map(|i| (i.to_string(), if leaf_only { V::Null } else { gen_value(rng, cfg, depth + 1) })).collect();
+                let l = match rng.below(6) {
+                    0 => n as f64 + 1.0,
+                    1 if n > 0 => n as f64 - 1.0,
+                    _ => n as f64,
+                };
+                props.push(("length".to_string(), V::Num(l.to_bits())));
+                return V::Obj(props);
+            }
             let mut props: Vec<(String, V)> = Vec::new();
             for _ in 0..n {
-                let name = gen_string(rng, cfg, true);
+                // names code may treat specially, now and then
+                let name = if rng.chance(1, 15) {
+                    rng.pick(&["length", "0", "1", "__proto__", "constructor", "toString", "name", "type", "code", "level", "description", "objectEncoding", "app", "data", "value", "onMetaData"]).to_string()
+                } else {
+                    gen_string(rng, cfg, true)
+                };
                 if props.iter().any(|p| p.0 == name) {
                     continue;
                 }
